@@ -300,6 +300,10 @@ func refreshFaults(g lstore.Geometry, opName string, newBlockFaults, writeFaults
 			first = parent
 		}
 		e.mustPut(first)
+		empty := lstore.CASObj("E0", instOf(g), []byte{})
+		if opName == "GetEmptyObject" {
+			e.mustPut(empty) // the empty object lives in a block like any other (it occupies no bytes of it)
+		}
 		e.mustPut(u.C)
 		e.mustPut(u.F) // first block is now "old"
 		if g.Persistent {
@@ -321,6 +325,16 @@ func refreshFaults(g lstore.Geometry, opName string, newBlockFaults, writeFaults
 			r := e.s.BA.Get(context.Background(), first.Digest).ToReader()
 			r.Read(make([]byte, 1))
 			r.Close()
+		case "GetEmptyObject":
+			for i := 0; i < 2; i++ {
+				d, err := e.s.Get(empty.Digest)
+				vsched.Obs("GetEmpty=%s", status.Code(err))
+				if err == nil && len(d) != 0 {
+					failf("wrong-bytes", "Get of the empty object returned %q", d)
+				}
+			}
+			_, err := e.s.FindMissing(empty.Digest)
+			vsched.Obs("FMEmpty=%s", status.Code(err))
 		case "GetTooSmall":
 			// the consumer's size limit is smaller than the object: the read fails before any data is read
 			_, err := e.s.BA.Get(context.Background(), first.Digest).ToByteSlice(1)
@@ -652,7 +666,7 @@ func main() {
 	fb := ev.Pick(r, 1, 2)
 	for _, hier := range []bool{false, true} {
 		for _, pers := range []bool{false, true} {
-			for _, opn := range []string{"Get", "GetDiscard", "GetReaderEarlyClose", "GetTooSmall", "GetCloneCopy", "GetHoldThenUseStore", "FindMissing", "GetFromComposite", "Put", "PutThenGet", "validating:Get", "validating:GetHoldThenUseStore", "validating:GetDiscard", "validating:GetReaderEarlyClose", "validating:GetTooSmall", "validating:GetCloneCopy", "validating:GetFromComposite"} {
+			for _, opn := range []string{"Get", "GetDiscard", "GetReaderEarlyClose", "GetTooSmall", "GetEmptyObject", "GetCloneCopy", "GetHoldThenUseStore", "FindMissing", "GetFromComposite", "Put", "PutThenGet", "validating:Get", "validating:GetHoldThenUseStore", "validating:GetEmptyObject", "validating:GetDiscard", "validating:GetReaderEarlyClose", "validating:GetTooSmall", "validating:GetCloneCopy", "validating:GetFromComposite"} {
 				g := base
 				g.Hierarchical, g.Persistent = hier, pers
 				if strings.HasPrefix(opn, "validating:") {
